@@ -565,7 +565,10 @@ fn case_ctx(cx: &mut Cx, order: u64, train: &[u8], data: &[u8], xn_mask: u32, fo
         Ok(Err(_)) => cx.dist("constructor_refused"),
         Ok(Ok(enc)) => {
             if let Some(v) = view_of(&enc) { let f = force || cx.force_new; x::ctx_new_case(cx, order, train, &v, f); }
-            judge_encoder(cx, "ctx", enc, &cj, data, xn_mask, force)
+            // the dedicated constructor job: its order-2 encoders over short trainings are small enough to go through
+            // the serialisation cases (ops 9, 10) whatever the budget says
+            let f = force || (cx.force_new && order == 2 && train.len() <= 4);
+            judge_encoder(cx, "ctx", enc, &cj, data, xn_mask, f)
         }
     }
 }
